@@ -13,53 +13,118 @@ import (
 
 var keyRe = regexp.MustCompile(`\*?[A-Za-z_][A-Za-z0-9_.]*\[i\][A-Za-z0-9_.]*`)
 
-func lessClosures(c *Ctx) []*ssa.Function {
-	var out []*ssa.Function
+// comparator: a closure handed to sort.Slice / sort.SliceStable (less(i, j) bool, keys X[i].f / X[j].f) or to
+// slices.SortFunc / SortStableFunc (cmp(a, b) int, keys a.f / b.f). Both are read through lt(a, b).
+type comparator struct {
+	f     *ssa.Function
+	three bool // three-way (int) comparator
+	canon map[string]string
+	keyRe *regexp.Regexp
+	other func(key string) string // the same key of the second element
+}
+
+func comparators(c *Ctx) []comparator {
+	var out []comparator
 	for _, f := range c.srcFuncs() {
 		for _, ci := range calls(f) {
 			n := calleeName(c, ci)
-			if n != "sort.Slice" && n != "sort.SliceStable" {
+			if len(ci.Common().Args) < 2 {
 				continue
 			}
-			if mc, ok := ci.Common().Args[1].(*ssa.MakeClosure); ok {
-				out = append(out, mc.Fn.(*ssa.Function))
+			var g *ssa.Function
+			switch a := ci.Common().Args[1].(type) {
+			case *ssa.MakeClosure:
+				g = a.Fn.(*ssa.Function)
+			case *ssa.Function:
+				if a.Parent() != nil { // a function literal without free variables; named comparators have their own rule
+					g = a
+				}
+			}
+			if g == nil {
+				continue
+			}
+			switch {
+			case n == "sort.Slice" || n == "sort.SliceStable":
+				out = append(out, comparator{f: g, canon: canonParams(g, "i", "j"), keyRe: keyRe,
+					other: func(k string) string { return strings.Replace(k, "[i]", "[j]", 1) }})
+			case strings.HasPrefix(n, "slices.SortFunc") || strings.HasPrefix(n, "slices.SortStableFunc"):
+				out = append(out, comparator{f: g, three: true, canon: canonParams(g, "a", "b"), keyRe: keyRe3,
+					other: func(k string) string { return "b" + k[1:] }})
 			}
 		}
 	}
-	sort.Slice(out, func(i, j int) bool { return out[i].Pos() < out[j].Pos() })
+	sort.Slice(out, func(i, j int) bool { return out[i].f.Pos() < out[j].f.Pos() })
 	return out
+}
+
+var keyRe3 = regexp.MustCompile(`\ba\.[A-Za-z0-9_.]+`)
+
+// keysOf discovers the keys the comparator reads of its first element.
+func (cm comparator) keysOf(c *Ctx) []string {
+	probe := (&explorer{c: c, f: cm.f, canon: cm.canon}).explore(nil)
+	keySet := map[string]bool{}
+	add := func(e string) {
+		for _, k := range cm.keyRe.FindAllString(e, -1) {
+			keySet[k] = true
+		}
+	}
+	for _, p := range probe {
+		for _, cd := range p.conds {
+			add(cd.expr)
+		}
+		for _, r := range p.ret {
+			add(r.expr)
+		}
+		for _, cl := range p.calls {
+			for _, a := range cl.args {
+				add(a.expr)
+			}
+		}
+	}
+	var keys []string
+	for k := range keySet {
+		keys = append(keys, k)
+	}
+	sort.Strings(keys)
+	return keys
+}
+
+// lt evaluates "first sorts strictly before second" for concrete key values; eq3 = the three-way result is 0.
+func (cm comparator) lt(c *Ctx, keys []string, x, y []int64) (lt, eq3 bool) {
+	atoms := map[string]absVal{}
+	for i, k := range keys {
+		atoms[k] = intVal(x[i])
+		atoms[cm.other(k)] = intVal(y[i])
+	}
+	outs := (&explorer{c: c, f: cm.f, atoms: atoms, canon: cm.canon}).explore(nil)
+	fn := c.fname(cm.f)
+	if len(outs) != 1 || len(outs[0].conds) != 0 || len(outs[0].ret) != 1 {
+		fatalf("%s: comparison is not a function of its keys %v alone — undecided", fn, keys)
+	}
+	r := outs[0].ret[0].abs
+	if cm.three {
+		if r.k != aInt {
+			fatalf("%s: three-way comparison is not a function of its keys %v alone — undecided", fn, keys)
+		}
+		return r.i < 0, r.i == 0
+	}
+	if r.k != aBool {
+		fatalf("%s: comparison is not a function of its keys %v alone — undecided", fn, keys)
+	}
+	return r.b, false
 }
 
 func ruleLessStrict(rule string, minInstances int) func(*Ctx) {
 	return func(c *Ctx) {
-		cls := lessClosures(c)
+		cls := comparators(c)
 		c.floor(rule, len(cls), minInstances)
-		for _, f := range cls {
+		for _, cm := range cls {
+			f := cm.f
 			fn := c.fname(f)
 			if !loopFree(f) {
 				fatalf("%s: comparison closure has a loop — undecided", fn)
 			}
-			// discover the keys
-			cij := canonParams(f, "i", "j")
-			probe := (&explorer{c: c, f: f, canon: cij}).explore(nil)
-			keySet := map[string]bool{}
-			for _, p := range probe {
-				for _, cd := range p.conds {
-					for _, k := range keyRe.FindAllString(cd.expr, -1) {
-						keySet[k] = true
-					}
-				}
-				for _, r := range p.ret {
-					for _, k := range keyRe.FindAllString(r.expr, -1) {
-						keySet[k] = true
-					}
-				}
-			}
-			var keys []string
-			for k := range keySet {
-				keys = append(keys, k)
-			}
-			sort.Strings(keys)
+			keys := cm.keysOf(c)
 			if len(keys) == 0 || len(keys) > 3 {
 				fatalf("%s: %d comparison keys found — undecided", fn, len(keys))
 			}
@@ -76,28 +141,18 @@ func ruleLessStrict(rule string, minInstances int) func(*Ctx) {
 				}
 			}
 			gen(nil)
-			less := func(x, y []int64) bool {
-				atoms := map[string]absVal{}
-				for i, k := range keys {
-					atoms[k] = intVal(x[i])
-					atoms[strings.Replace(k, "[i]", "[j]", 1)] = intVal(y[i])
-				}
-				outs := (&explorer{c: c, f: f, atoms: atoms, canon: cij}).explore(nil)
-				if len(outs) != 1 || len(outs[0].conds) != 0 || len(outs[0].ret) != 1 || outs[0].ret[0].abs.k != aBool {
-					fatalf("%s: comparison is not a function of its keys %v alone — undecided", fn, keys)
-				}
-				return outs[0].ret[0].abs.b
-			}
-			memo := map[string]bool{}
-			L := func(x, y []int64) bool {
+			type res struct{ lt, eq bool }
+			memo := map[string]res{}
+			ev := func(x, y []int64) res {
 				k := fmt.Sprint(x, y)
 				if v, ok := memo[k]; ok {
 					return v
 				}
-				v := less(x, y)
-				memo[k] = v
-				return v
+				l, e := cm.lt(c, keys, x, y)
+				memo[k] = res{l, e}
+				return memo[k]
 			}
+			L := func(x, y []int64) bool { return ev(x, y).lt }
 			bad := ""
 			for _, x := range tuples {
 				if L(x, x) && bad == "" {
@@ -106,6 +161,9 @@ func ruleLessStrict(rule string, minInstances int) func(*Ctx) {
 				for _, y := range tuples {
 					if L(x, y) && L(y, x) && bad == "" {
 						bad = fmt.Sprintf("not asymmetric: less(a,b) and less(b,a) both true for a=%v b=%v (keys %v)", x, y, keys)
+					}
+					if cm.three && ev(x, y).eq != (!L(x, y) && !L(y, x)) && bad == "" {
+						bad = fmt.Sprintf("the three-way result is 0 for a=%v b=%v (keys %v) although one sorts before the other, or non-zero both ways", x, y, keys)
 					}
 					for _, z := range tuples {
 						if L(x, y) && L(y, z) && !L(x, z) && bad == "" {
@@ -118,10 +176,9 @@ func ruleLessStrict(rule string, minInstances int) func(*Ctx) {
 					}
 				}
 			}
-			owner := fn
-			c.check(bad == "", rule, fmt.Sprintf("%s:%s", rule, owner), f.Pos(), fn,
+			c.check(bad == "", rule, fmt.Sprintf("%s:%s", rule, fn), f.Pos(), fn,
 				fmt.Sprintf("strict weak order over keys %v (%d key tuples, all pairs and triples)", keys, len(tuples)), bad,
-				"sort.Slice with a comparator that is not a strict weak order may order equal inputs differently depending on their initial permutation, or loop/misplace elements: the sweep then processes minima or intersections in a wrong order")
+				"a sort comparator that is not a strict weak order may order equal inputs differently depending on their initial permutation, or loop/misplace elements: the sweep then processes minima or intersections in a wrong order")
 		}
 	}
 }
@@ -171,25 +228,12 @@ func ruleCmp3(rule string) func(*Ctx) {
 // (larger Y first), intersections bottom-up and, within one Y, left to right.
 func ruleSweepOrder(rule string) func(*Ctx) {
 	return func(c *Ctx) {
-		for _, f := range lessClosures(c) {
+		n := 0
+		for _, cm := range comparators(c) {
+			f := cm.f
 			fn := c.fname(f)
-			cij := canonParams(f, "i", "j")
-			probe := (&explorer{c: c, f: f, canon: cij}).explore(nil)
-			keySet := map[string]bool{}
-			for _, p := range probe {
-				for _, cd := range p.conds {
-					for _, k := range keyRe.FindAllString(cd.expr, -1) {
-						keySet[k] = true
-					}
-				}
-				for _, r := range p.ret {
-					for _, k := range keyRe.FindAllString(r.expr, -1) {
-						keySet[k] = true
-					}
-				}
-			}
 			var ky, kx string
-			for k := range keySet {
+			for _, k := range cm.keysOf(c) {
 				if strings.HasSuffix(k, ".Y") {
 					ky = k
 				}
@@ -198,28 +242,29 @@ func ruleSweepOrder(rule string) func(*Ctx) {
 				}
 			}
 			if ky == "" {
-				fatalf("%s: no Y key in a sweep comparator", fn)
+				continue // not a sweep comparator (no Y key)
+			}
+			n++
+			keys := []string{ky}
+			if kx != "" {
+				keys = append(keys, kx)
 			}
 			bad := ""
 			for ay := int64(0); ay < 3; ay++ {
 				for by := int64(0); by < 3; by++ {
 					for ax := int64(0); ax < 3; ax++ {
 						for bx := int64(0); bx < 3; bx++ {
-							atoms := map[string]absVal{ky: intVal(ay), strings.Replace(ky, "[i]", "[j]", 1): intVal(by)}
+							x, y := []int64{ay}, []int64{by}
 							if kx != "" {
-								atoms[kx] = intVal(ax)
-								atoms[strings.Replace(kx, "[i]", "[j]", 1)] = intVal(bx)
+								x, y = append(x, ax), append(y, bx)
 							}
-							outs := (&explorer{c: c, f: f, atoms: atoms, canon: cij}).explore(nil)
-							if len(outs) != 1 || len(outs[0].ret) != 1 || outs[0].ret[0].abs.k != aBool {
-								fatalf("%s: undecided", fn)
-							}
+							got, _ := cm.lt(c, keys, x, y)
 							want := ay > by
 							if kx != "" {
 								want = ay > by || (ay == by && ax < bx)
 							}
-							if outs[0].ret[0].abs.b != want && bad == "" {
-								bad = fmt.Sprintf("less(a,b)=%v for a=(x%d,y%d) b=(x%d,y%d); the sweep order requires %v", outs[0].ret[0].abs.b, ax, ay, bx, by, want)
+							if got != want && bad == "" {
+								bad = fmt.Sprintf("a sorts before b = %v for a=(x%d,y%d) b=(x%d,y%d); the sweep order requires %v", got, ax, ay, bx, by, want)
 							}
 						}
 					}
@@ -232,5 +277,6 @@ func ruleSweepOrder(rule string) func(*Ctx) {
 			c.check(bad == "", rule, fmt.Sprintf("%s:%s", rule, fn), f.Pos(), fn, "comparator = "+spec, bad,
 				"the sweep processes scanbeams from the bottom up and swaps intersecting edges left to right so that they are adjacent when swapped; another order mis-pairs edges (visible as a lost X-mirror symmetry of the result)")
 		}
+		c.floor(rule, n, 2)
 	}
 }
